@@ -393,6 +393,23 @@ func hooksC13() Hooks {
 		if !checkStat(r, "after "+op.K) {
 			return
 		}
+		// what the real decoders (file reader for the head, mmap reader for rolled segments) read back
+		got, _, diag := r.scan(int64(1 + r.Obs.Intn(9)))
+		if diag != "" {
+			r.violate("read-back|error|"+scanDiagKind(diag), "after %s: the log does not read back: %s", op.K, diag)
+			return
+		}
+		if d := diffLive(got, r.M.Live); d != "" {
+			r.violate("read-back|"+diffKind(d), "after %s: messages do not read back identical: %s", op.K, d)
+			return
+		}
+		if n := len(r.M.Live); n > 0 {
+			x := r.M.Live[r.Obs.Intn(n)]
+			if g, err := getG(r.L, x.Off); err != nil || !sameMsg(g, x) {
+				r.violate("read-back|Get", "after %s: Get(%d) = %v, %v; written %v", op.K, x.Off, g, err, x)
+				return
+			}
+		}
 		// Size(m) = bytes a message adds to a head segment of NewSegmentsVersion
 		if op.K == "pub" && len(op.Msgs) > 0 {
 			before, _ := r.Ctx["layout"].([]segInfo)
